@@ -415,7 +415,7 @@ def generate_and_replay(module, name, constants, exe, exe_args=("replay",), inva
                         depth=None, seed=None):
     """Run TLC on `module` with the given constants; every line starting with <<"BEH" is fed to the replayer's
     stdin.  Returns dict(tlc=TlcResult, summary=dict, fails=[dict], harness_rc=int, harness_err=str)."""
-    cfg = os.path.join(cfg_dir(), "%s-%s.cfg" % (module, name))
+    cfg = os.path.join(cfg_dir(), "%s-%s-%d.cfg" % (module, name, os.getpid()))
     write_cfg(cfg, spec=spec, constants=constants, invariants=list(invariants) + [emit], properties=properties)
     lastbeh = os.path.join(cfg_dir(), "%s-%s-%d.lastbeh" % (module, name, os.getpid()))
     henv = dict(os.environ)
